@@ -98,11 +98,16 @@ OPS = {'d': 'ExteriorDerivative', 'delta': 'AdjointExteriorDerivative', 'hodge':
 class Gen:
     """random user-level programs; a program is a nested tuple"""
 
-    def __init__(self, rng, n, maxdepth, degs=None):
+    def __init__(self, rng, n, maxdepth, degs=None, floats=False):
         # degs: the degrees the forms (leaves) are drawn from; None = all of 0..n
-        self.rng, self.n, self.maxdepth, self.degs = rng, n, maxdepth, degs
+        # floats: about every second coefficient is a floating-point number (2.5, 0.5, -1.25, 0.5*c) and
+        # every numeric coefficient is dyadic (denominators 2, 4, 8 instead of 2, 3, 7), so that all the
+        # floating-point arithmetic sympy does on the coefficients is exact and a Float stands for
+        # exactly one rational (Ser sends it as that rational; Concrete computes with it)
+        self.rng, self.n, self.maxdepth, self.degs, self.floats = rng, n, maxdepth, degs, floats
 
     POOL = ('c1', 'c2', 'c3')
+    FLOATS = ('2.5', '0.5', '-1.25', '1.5', '-0.25', '0.75', '3.0', '-2.0')
 
     def fresh(self):
         """a Constant name never used elsewhere (in this generator)"""
@@ -121,11 +126,17 @@ class Gen:
         neither sympde.calculus.core.is_constant nor the exterior calculus calls a constant; a Constant
         exponent is only given to a fresh base, which cannot merge with anything"""
         r = self.rng
+        if self.floats:
+            k = r.random()
+            if k < 0.35:      # a floating-point number: 2.5*u (python float), Float('0.5')*u
+                return ('flt', r.choice(self.FLOATS))
+            if k < 0.5:       # a floating-point multiple of a Constant: 0.5*c
+                return ('fmul', r.choice(self.FLOATS), self.cst())
         k = r.random()
         if k < 0.25:
             return ('int', r.choice([-3, -2, -1, 2, 3, 5]))
         if k < 0.35:
-            return ('rat', r.choice([1, -1, 3, 5]), r.choice([2, 3, 7]))
+            return ('rat', r.choice([1, -1, 3, 5]), r.choice([2, 4, 8] if self.floats else [2, 3, 7]))
         if k < 0.55:
             return ('cst', self.cst())
         if k < 0.67:      # product of two: c*2, c*e, c*c (= c**2)
@@ -225,6 +236,10 @@ class Runner:
             return m['Rational'](c[1], c[2])
         if c[0] == 'cst':
             return m['Constant'](c[1])
+        if c[0] == 'flt':
+            return m['Float'](c[1])
+        if c[0] == 'fmul':
+            return m['Float'](c[1]) * m['Constant'](c[2])
         if c[0] == 'pow':
             return m['Constant'](c[1]) ** self.coef(c[2])
         if c[0] == 'npow':
@@ -290,6 +305,10 @@ def coef_str(c):
         return '(%d/%d)' % (c[1], c[2])
     if c[0] == 'cst':
         return c[1]
+    if c[0] == 'flt':
+        return 'Float(%s)' % c[1]
+    if c[0] == 'fmul':
+        return 'Float(%s)*%s' % (c[1], c[2])
     if c[0] == 'pow':
         return '%s**%s' % (c[1], coef_str(c[2]))
     if c[0] == 'npow':
@@ -310,6 +329,26 @@ def prog_str(p):
     return '%s(%s)' % (h, prog_str(p[1]))
 
 
+def defloat(e, m):
+    """every Float replaced by the rational it is exactly (2.5 -> 5/2); operator nodes are rebuilt
+    unevaluated, so nothing the implementation left unevaluated gets evaluated on the way"""
+    from sympy import Float, Rational, sympify
+    e = sympify(e)
+    if isinstance(e, Float):
+        return Rational(e)
+    if not e.args or not e.atoms(Float):
+        return e
+    args = [defloat(a, m) for a in e.args]
+    if isinstance(e, (m['ExteriorDerivative'], m['AdjointExteriorDerivative'], m['Hodge'], m['ExteriorProduct'])):
+        return type(e)(*args, evaluate=False)
+    return e.func(*args)
+
+
+def has_float(p):
+    """the program has a floating-point coefficient"""
+    return isinstance(p, (tuple, list)) and (p[:1] in (('flt',), ('fmul',)) or any(has_float(a) for a in p))
+
+
 def correspondence(ctx):
     c = Corr()
     ser = Ser()
@@ -320,7 +359,9 @@ def correspondence(ctx):
     seen = set()
     for i in range(nprog):
         n = ctx.rng.randint(1, 6)
-        g = Gen(ctx.rng, n, maxdepth)
+        # every sixth program has floating-point coefficients (dyadic, so a Float is exactly the rational
+        # the model gets for it; the real output is compared after the same replacement)
+        g = Gen(ctx.rng, n, maxdepth, floats=(i % 6 == 5))
         p = g.prog()
         r = Runner(n)
         try:
@@ -364,11 +405,13 @@ def correspondence(ctx):
             c.count('arg:' + head)
             if '(other "Pow"' in line:
                 c.count('arg-has-coef-power')
+            if any(a.atoms(m['Float']) for a in args):
+                c.count('arg-has-float-coef')
             if not out.startswith('ok '):
                 c.disagreements.append({'input': line, 'impl': str(res), 'model': out, 'note': 'model refused'})
                 continue
             mres = ser.build(loads_all(out[3:])[0])
-            if mres != res:
+            if mres != defloat(res, m):
                 c.disagreements.append({'input': line, 'impl': str(res), 'model': str(mres), 'note': 'value'})
             # non-trivial: result is not just the unevaluated node around the argument
             cls = type(res).__name__
@@ -606,8 +649,10 @@ class Concrete:
         """value of a factor without differential forms: Constants -> 4, 9, 16, ... (in the order they
         are met), then sympy's own arithmetic on numbers"""
         from fractions import Fraction
-        from sympy import Symbol, Integer, sympify
+        from sympy import Symbol, Integer, Float, Rational, sympify
         e = sympify(e)
+        # a floating-point number is the rational it is exactly (2.5 = 5/2): the arithmetic stays exact
+        e = e.xreplace({f: Rational(f) for f in e.atoms(Float)})
         for s in sorted(e.atoms(Symbol), key=str):
             if s not in self.consts:
                 self.consts[s] = Integer((len(self.consts) + 2) ** 2)
@@ -748,6 +793,21 @@ def oracle(ctx, factor, seeds):
             (n, ('d', ('d', ('hodge', un)))),          # these two are 0
             (n, ('d', ('add', [('cmul', ('int', 2), un), vn]))),
         ]
+    # floating-point coefficients (python floats, sympy Floats, a Float times a Constant): constants like any
+    # other.  All of them dyadic, so the laws hold exactly (no rounding anywhere).
+    u13_, w13_ = ('form', 'u1_3', 1), ('form', 'w1_3', 1)
+    fixed += [
+        (3, ('cmul', ('flt', '2.5'), u13_)),
+        (3, ('d', ('cmul', ('flt', '2.5'), u13_))),
+        (3, ('delta', ('cmul', ('flt', '0.5'), ('form', 'w2_3', 2)))),
+        (2, ('hodge', ('cmul', ('flt', '-1.25'), ('form', 'u1_2', 1)))),
+        (3, ('cmul', ('flt', '-1.25'), ('add', [u13_, w13_]))),
+        (3, ('cmul', ('fmul', '0.5', 'c'), u13_)),
+        (3, ('d', ('cmul', ('flt', '2.5'), ('d', u13_)))),
+        (3, ('add', [('cmul', ('flt', '2.5'), ('d', u13_)), ('cmul', ('flt', '0.5'), ('form', 'w2_3', 2))])),
+        (4, ('wedge', ('cmul', ('flt', '2.5'), ('form', 'u1_4', 1)), ('cmul', ('fmul', '0.5', 'c'), ('form', 'w2_4', 2)))),
+        (3, ('hodge', ('d', ('cmul', ('flt', '0.75'), ('hodge', ('form', 'u3_3', 3)))))),
+    ]
     progs = list(fixed)
     concrete_selftest(m)
     # witness of the finding C19-coef-pow (fixed by 5022685: a power of a Constant was not recognised as
@@ -778,6 +838,38 @@ def oracle(ctx, factor, seeds):
             g_ = type(e).__name__
         if g_ != want:
             o.fail(key, '%s: got %s, expected %s (a power of a Constant is a constant coefficient)' % (key, g_, want), got=str(g_))
+    # floating-point coefficients, direct witnesses with stable keys: the expected value is written down from
+    # the law with unevaluated operator nodes around the bare form (seeded change C19-10 made the coefficient
+    # test reject every Number that is not Rational, Floats included)
+    from sympy import Float, sympify
+    ca = m['Constant']('a')
+    u23 = m['DifferentialForm']('u2_3', 2, 3)
+    N = lambda cls, *a: cls(*a, evaluate=False)
+    for key, got, want in (
+            ('coef-float:d(2.5*u)', lambda: D(2.5 * u13), 2.5 * N(D, u13)),
+            ('coef-float:delta(Float(0.5)*u)', lambda: DL(Float('0.5') * u13), Float('0.5') * N(DL, u13)),
+            ('coef-float:hodge(-1.25*u)', lambda: H(-1.25 * u13), -1.25 * N(H, u13)),
+            ('coef-float:d(0.5*a*(u+w))', lambda: D(0.5 * ca * (u13 + w13)), 0.5 * ca * N(D, u13) + 0.5 * ca * N(D, w13)),
+            ('coef-float:d(d(2.5*u))', lambda: D(D(2.5 * u13)), 0),
+            ('coef-float:delta(delta(2.5*u2))', lambda: DL(DL(2.5 * u23)), 0),
+            ('coef-float:d(2.5*d(u))', lambda: D(2.5 * N(D, u13)), 0),
+            ('coef-float:d(2.5*top)', lambda: D(2.5 * t33), 0),
+            ('coef-float:delta(0.5*z0)', lambda: DL(0.5 * z03), 0),
+            ('coef-float:hodge(hodge(2.5*u))', lambda: H(H(2.5 * u13)), 2.5 * u13),
+            ('coef-float:hodge(hodge(0.5*a*u2))', lambda: H(H(0.5 * ca * u23)), 0.5 * ca * u23),
+            ('coef-float:wedge(2.5*u,0.5*w)', lambda: W(2.5 * u13, 0.5 * w13), 1.25 * N(W, u13, w13)),
+            ('coef-float:infer(d(2.5*u))', lambda: m['infere_type'](D(2.5 * u13)).index, 2),
+            ('coef-float:infer(delta(0.5*a*u))', lambda: m['infere_type'](DL(0.5 * ca * u13)).index, 0),
+            ('coef-float:infer(hodge(-1.25*u))', lambda: m['infere_type'](H(-1.25 * u13)).index, 2)):
+        o.evaluations += 1
+        o.count('witness:coef-float')
+        try:
+            g_ = got()
+            ok = expand(sympify(g_) - want) == 0
+        except Exception as e:
+            g_, ok = type(e).__name__, False
+        if not ok:
+            o.fail(key, '%s: got %s, expected %s (a floating-point number is a constant coefficient)' % (key, g_, want), got=str(g_))
     # a wedge with a factor that vanishes by the laws (d d = 0, delta delta = 0, d of a top-degree form,
     # delta of a 0-form) is 0 — whichever zero object (int 0 or S.Zero) the operators return for it
     # (seeded change C19-6 tested `is S.Zero`)
@@ -806,6 +898,20 @@ def oracle(ctx, factor, seeds):
             progs.append((n, Gen(ctx.rng, n, maxdepth).chain()))
         else:
             progs.append((n, Gen(ctx.rng, n, maxdepth, degs=ctx.rng.choice([[n], [n], [0], [0, n]])).prog(1)))
+    for i in range(nprog // 5):
+        # programs with floating-point coefficients (about every second coefficient; all dyadic): random
+        # programs, operator words, and an operator (twice) on a linear combination of forms
+        n = ctx.rng.randint(1, 6)
+        g = Gen(ctx.rng, n, maxdepth, floats=True)
+        if i % 3 == 0:
+            p = g.prog()
+        elif i % 3 == 1:
+            p = g.chain()
+        else:
+            p = g.lin(lambda k: True)
+            for _ in range(ctx.rng.choice([1, 2])):
+                p = (ctx.rng.choice(['d', 'delta', 'hodge']), p)
+        progs.append((n, p))
     # operator applications on which model and implementation disagreed in the correspondence run (only
     # in the failing-input search): judged by the concrete model like every other application
     ser = Ser()
@@ -831,7 +937,8 @@ def oracle(ctx, factor, seeds):
         o.count('concrete:seed-from-correspondence')
         concrete_check(o, rr.n, rr.apps, m, ' [argument taken from a correspondence disagreement]')
     for n, p in progs:
-        g = Gen(ctx.rng, n, 3)
+        fl = has_float(p)
+        g = Gen(ctx.rng, n, 3, floats=fl)   # beside floats only dyadic coefficients: all arithmetic exact
         g.k = 100     # constants of the auxiliary programs never coincide with those of p
         r = Runner(n)
         try:
@@ -844,6 +951,10 @@ def oracle(ctx, factor, seeds):
         from sympy import Pow, sympify
         if sympify(v).atoms(Pow):
             o.count('value-has-coef-power')
+        if fl:
+            o.count('program-has-float-coef')
+        if sympify(v).atoms(Float):
+            o.count('value-has-float-coef')
         if len(o.samples) < 4:
             o.samples.append({'dim': n, 'program': ps, 'value': str(v)})
         # every operator application of the program against the explicit model of the exterior algebra
@@ -872,7 +983,7 @@ def oracle(ctx, factor, seeds):
                 o.fail('lin:%s:%d:%s|%s|%s' % (name, n, cf, ps, prog_str(q)),
                        '%s(c*a+b) != c*%s(a)+%s(b) for c=%s a=%s b=%s' % (name, name, name, cf, ps, prog_str(q)),
                        lhs=str(lhs), rhs=str(rhs))
-        g3 = Gen(ctx.rng, n, 3)
+        g3 = Gen(ctx.rng, n, 3, floats=fl)
         g3.k = 200
         tv3 = Runner(n).run(g3.prog())
         lhs, rhs = W(cf * v + w, tv3), cf * W(v, tv3) + W(w, tv3)
